@@ -12,6 +12,7 @@ cleanup() { git -C /repo worktree remove --force "$WT" 2>/dev/null; rm -rf "$WT"
 trap cleanup EXIT
 cd "$WT" || exit 3
 export NUMBA_CACHE_DIR="$WT/.nbcache"
+export PYTHONPATH="$WT"
 mkdir -p _seed && cp "$SRC/seed${K}_demo.py" _seed/
 if ! git apply --check "$SRC/seed${K}.diff" 2>/dev/null; then echo "RESULT $ID: patch does not apply to HEAD"; exit 2; fi
 /venv/bin/python -W ignore _seed/seed${K}_demo.py > demo_clean.log 2>&1; RC_CLEAN=$?
